@@ -69,6 +69,9 @@ func (t *ClientTransport) Handshake() (hr *parser.HandshakeResponse, err error) 
 	if err != nil {
 		return
 	}
+	// The websocket library limits messages to 32 KiB by default and closes the connection
+	// when a larger one arrives. The server may send anything up to its own limits.
+	t.conn.SetReadLimit(-1)
 
 	// If sid is set this means that we have already connected and
 	// we're using this transport for upgrade purposes.
